@@ -7,7 +7,8 @@ K2  its address is self's and its metadata is T::dst_len(self.header())
 K3  the fact size_of_val(self) == size_of_val(that reference) holds at the return (every path to the return
     passes the comparison; the failing edge diverges) and nothing but size_of_val touches the reference before
 K4  the returned value is that reference
-K5  layout of DynSizedStructure<H> (C14.B7) - size_of_val(self) = round8(size_of H + payload_len)
+K5  layout of DynSizedStructure<H> (C14.B7) - size_of_val(self) = round8(size_of H + payload_len); imported C14.B4: every
+    DynSizedStructure reference is created with metadata = the header's payload_len
 """
 from .. import an
 from .. import select as SEL
@@ -129,6 +130,9 @@ def run(ctx):
         ctx.check(bool(a) and a["align"] == 8 and (a.get("tail") or {}).get("off") == F.size_of(h["self"]), "K5", "layout:" + h["self_name"],
                   "size_of_val(&DynSizedStructure<%s>) = round8(%s + payload_len)" % (h["self_name"], F.size_of(h["self"])), (a or {}).get("span", ""),
                   how="align 8, tail at header size", why=str(a and a.get("tail")))
+    # the size cast compares with is the *tag's* only if every DynSizedStructure reference is created with the header's own
+    # payload length as metadata (not, say, the length of the slice it was parsed from): premise B4 of C14
+    ctx.import_prop("C14", only=lambda o: o.rule == "B4", label="extent of the structure cast starts from")
     if ctx.tier == "thorough":
         from .. import witness
         witness.check(ctx, [("K6aCastOtherHeader", "K6: cast::<T>() rejects a T with another header type"),
